@@ -201,6 +201,10 @@ pub enum Init {
     /// `push` of n distinct keys, then `remove_at` until `keep` entries remain; the third field
     /// selects where entries are removed: 0 front, 1 back, 2 alternating, 3 middle
     GrowShrink(usize, usize, u8),
+    /// `GrowShrink(n, keep, how)`, then `push` of `len` entries whose keys follow the bits of
+    /// `pattern` (0: "d", 1: "zz-new"): every duplicate-key layout inside a table that is far
+    /// too large for what it holds
+    GrowShrinkThen(usize, usize, u8, u32, u8),
 }
 
 pub fn pumped_key(i: usize) -> String {
@@ -257,6 +261,15 @@ impl Init {
                     o.remove_at(at);
                     m.remove_at(at);
                     step += 1;
+                }
+                (o, m)
+            }
+            Init::GrowShrinkThen(n, keep, how, pattern, len) => {
+                let (mut o, mut m) = Init::GrowShrink(n, keep, how).build();
+                for i in 0..len as usize {
+                    let k = if pattern >> i & 1 == 0 { "d" } else { "zz-new" };
+                    o.push(key(k), val((i % 2) as Val));
+                    m.push(k, (i % 2) as Val);
                 }
                 (o, m)
             }
